@@ -157,13 +157,15 @@ impl InternalOpTracker {
       .or_else(|| self.pending_notifications.get(&user_data))
   }
 
-  /// The entry a completion belongs to. The notification of a zero-copy send carries the
-  /// `user_data` of that send, which a new operation may have been given since the send's first
-  /// completion: it is looked up only among the entries that wait for a notification, and every
-  /// other completion only among the submitted operations.
+  /// The entry a completion belongs to. An entry waiting for the notification of a zero-copy send
+  /// normally keeps its slot (see `reinsert_for_notification`); one that had to go to the
+  /// secondary map is found there by its notification only, never by the completion of a new
+  /// operation that was given the same `user_data`.
   pub fn get_for_completion(&self, user_data: UserData, is_notification: bool) -> Option<&InternalOpDetails> {
     if is_notification {
-      return self.pending_notifications.get(&user_data);
+      if let Some(d) = self.pending_notifications.get(&user_data) {
+        return Some(d);
+      }
     }
     if user_data < INTERNAL_OP_BASE {
       return None;
@@ -174,7 +176,9 @@ impl InternalOpTracker {
   /// Removes and returns the entry a completion belongs to (see `get_for_completion`).
   pub fn take_for_completion(&mut self, user_data: UserData, is_notification: bool) -> Option<InternalOpDetails> {
     if is_notification {
-      return self.pending_notifications.remove(&user_data);
+      if let Some(d) = self.pending_notifications.remove(&user_data) {
+        return Some(d);
+      }
     }
     if user_data < INTERNAL_OP_BASE {
       return None;
@@ -188,9 +192,18 @@ impl InternalOpTracker {
   }
 
   /// Re-registers details for a SEND_ZC op that expects a second notification CQE with the
-  /// same `user_data`. The entry is moved to the secondary map so `take_op_details` can find
-  /// it when the kernel delivers the `IORING_CQE_F_NOTIF` completion.
+  /// same `user_data`. The entry goes back into the slot it has just been taken from, so that the
+  /// `user_data` stays taken until the notification arrives and no new operation is given it (two
+  /// sends waiting for their notifications under one `user_data` cannot be told apart). Only if the
+  /// slot is not the next vacant one any more is the entry kept in the secondary map.
   pub fn reinsert_for_notification(&mut self, user_data: UserData, details: InternalOpDetails) {
+    if user_data >= INTERNAL_OP_BASE {
+      let key = (user_data - INTERNAL_OP_BASE) as usize;
+      if self.op_to_details.vacant_key() == key {
+        self.op_to_details.insert(details);
+        return;
+      }
+    }
     self.pending_notifications.insert(user_data, details);
   }
 
